@@ -28,7 +28,8 @@ MANIFEST = dict(
     category="model_checking",
     technique="TLA+ spec PoolRun (engine/pool/await-loop/instance state machine under a fault-plan catalogue) model-checked with TLC "
               "(safety exhaustively, liveness under fairness, negative controls) + TLC trace validation of real engine runs recorded "
-              "through scripted mocks and verif hooks for every fault plan TLC prints",
+              "through scripted mocks and verif hooks for every fault plan TLC prints, and of the engine runs made by pandora's own "
+              "test binaries (hook file sink, most general environment)",
     design_ref="DESIGN.md §4 C05",
     text=("PoolRun.tla is an implementation-shaped model of core/engine/engine.go: Engine.Run's pool goroutines and 1-buffered runRes "
           "channel, instancePool.Run (warm-up, runAsync, final select, deferred cancel), startInstances (first instance synchronous, later "
@@ -37,14 +38,20 @@ MANIFEST = dict(
           "recovered shot panic and gun Close. Which component fails where is a fault plan from a catalogue that is a CONSTANT of the spec "
           "(provider before first ammo/mid-run/at the very end, aggregator at once/drop error on cancel, warm-up, gun factory call j, Bind of "
           "instance j, schedule factory (per instance / shared), shot panic, user cancel at any step, 1 or 2 pools; and which error VALUE the "
-          "failing component returns: plain, wrapped, DeadlineExceeded / Canceled of its own context, the run ctx's own error late). TLC checks Outcome, Cause, "
+          "failing component returns: plain, wrapped, DeadlineExceeded / Canceled of its own context, the run ctx's own error late; a component call "
+          "that does not return before Run has returned - gun factory / WarmUp / schedule factory / Bind / a shot - with the caller's cancel issued "
+          "while the mock is inside). TLC checks Outcome, Cause, "
           "GunsClosed, WaitDoneOnce, no deadlock (= nothing hangs), Termination and CancelPrompt (liveness), and must find counterexamples in "
           "the variants that model the two shipped defects and two mutants. The same catalogue, printed by TLC, drives the REAL engine with "
           "scripted mocks and seeded schedule jitter; TracePoolRun.tla accepts a recorded run only if it is a behaviour of PoolRun.tla that "
-          "ends with the observed Run result, Wait returned, no mock Run/Shoot active and no goroutine left. This is the right level: the "
+          "ends with the observed Run result, Wait returned, no mock Run/Shoot active and no goroutine left. The engine runs of the repository's "
+          "own tests (go test -tags verif ./core/engine, thorough: ./tests/acceptance; every leaf test in its own process, seeded jitter) are "
+          "recorded by a tag-only file sink and validated by TracePoolRunHooks.tla, which re-uses the same engine actions with the most general "
+          "environment in place of the scripted components. This is the right level: the "
           "property quantifies over fault positions and over the orders in which the await loop sees its results, which is what a model "
           "checker enumerates and what hand-ordered unit tests cannot."),
-    note=("Bounds: <= 2 instances, <= 2 tokens, <= 3 ammo, one fault per pool + one cancel, <= 2 pools; quick tier explores the no-cancel "
+    note=("Bounds: <= 2 instances (3 in the thorough tier and for repository-test traces), <= 2 tokens, <= 3 ammo, one fault per pool + one cancel, "
+          "<= 2 pools (3 in Engine.tla); repository-test traces: hook events only, prefix-closed safety; quick tier explores the no-cancel "
           "plans exhaustively, thorough adds cancel-at-any-step plans and two pools; liveness on representative plan subsets. Real-run "
           "termination is observed with a watchdog (10 s, confirmed twice). Not decided: a user cancel racing with the very end of a run "
           "may still hide a late component error (stated exemption cancelAtRet); providers that never honour cancel. Trusted: mocks/recorder, "
